@@ -15,6 +15,8 @@
 -/
 import Hw.Io.SyntheticTopo
 import Hw.Io.SyntheticDump
+import Hw.Io.SyntheticWFAll
+import Hw.Io.SyntheticFix
 import Hw.Topo.WF
 import Driver.Topo
 import Driver.Strings
@@ -236,7 +238,13 @@ def step (u : Unit) (line : String) : Unit × String :=
                 | some f => (u, "load DUMP-DIFF " ++ f)
                 | none =>
                   let mv := wfCheck md
-                  if mv.isEmpty then (u, "load ok regular") else (u, "load MODEL-WF-FAIL " ++ ",".intercalate (mv.take 4))
+                  -- `topoOK`: the side condition of the general well-formedness theorems (Hw.Io.SyntheticWF, C07_build_wf_*):
+                  -- every topology the model builds and hwloc agrees with must satisfy it
+                  if !mv.isEmpty then (u, "load MODEL-WF-FAIL " ++ ",".intercalate (mv.take 4))
+                  else if !topoOK t || !puOK t || !memOK t || !numaOK t then
+                    (u, "load HYP-FAIL" ++ (if topoOK t then "" else " topoOK") ++ (if puOK t then "" else " puOK") ++
+                      (if memOK t then "" else " memOK") ++ (if numaOK t then "" else " numaOK"))
+                  else (u, "load ok regular")
               else
                 let what := if a.levels != t.levels then "levels" else if a.rootMem != t.rootMem then "rootmem"
                   else if a.puIdx != t.puIdx then "puidx" else "numaidx"
@@ -275,6 +283,20 @@ def step (u : Unit) (line : String) : Unit × String :=
           | none => (u, "fix export-fail")
           | some e1 =>
             let pre := "fix " ++ StringsEng.bytesHex e1
+            -- C07_export_fixpoint_partial (flags NO_ATTRS|IGNORE_MEMORY): the exported string - compared byte for byte with hwloc's -
+            -- must be `printDesc` of the level structure, and re-importing it must give back exactly those types and arities
+            let fixHyp : String :=
+              if flags ≠ fixFlags then "" else
+              match specsOf t.levels with
+              | none => "no-canonical-name"
+              | some specs =>
+                if !acceptsB specs then "not-accepts" else
+                if printDesc specs ≠ e1 then "printDesc" else
+                match parse e1 with
+                | .ok p2 => if p2.levels.map (·.attr.type) = expectedTypes specs ∧ p2.levels.map (·.arity) = expectedArities specs then ""
+                            else "reparse-structure"
+                | .error _ => "reparse-rejected"
+            if fixHyp ≠ "" then (u, "fix HYP-FAIL " ++ fixHyp) else
             match parseVerdict e1 with
             | (v, none) => (u, pre ++ " load2=" ++ v)
             | (_, some p2) =>
